@@ -272,6 +272,10 @@ thread_local! {
     static LAST_PANIC: RefCell<Option<(String, String)>> = const { RefCell::new(None) };
 }
 
+/// panics raised on other threads (rayon workers of the code under test) are re-raised on the
+/// calling thread without their location: the hook also records them here, keyed by nothing
+static LAST_PANIC_ANYWHERE: Mutex<Option<(String, String)>> = Mutex::new(None);
+
 pub fn install_panic_hook() {
     std::panic::set_hook(Box::new(|info| {
         let loc = info
@@ -285,6 +289,9 @@ pub fn install_panic_hook() {
         } else {
             "<non-string panic payload>".to_string()
         };
+        if let Ok(mut g) = LAST_PANIC_ANYWHERE.lock() {
+            *g = Some((loc.clone(), msg.clone()));
+        }
         LAST_PANIC.with(|p| *p.borrow_mut() = Some((loc, msg)));
     }));
 }
@@ -313,6 +320,7 @@ pub fn guard<T, F: FnOnce() -> T>(f: F) -> Result<T, (String, String)> {
         Ok(v) => Ok(v),
         Err(_) => {
             let got = LAST_PANIC.with(|p| p.borrow_mut().take());
+            let got = got.or_else(|| LAST_PANIC_ANYWHERE.lock().ok().and_then(|mut g| g.take()));
             Err(got.unwrap_or_else(|| ("unknown".to_string(), "panic".to_string())))
         }
     }
